@@ -226,3 +226,40 @@ Theorem C08_request_message_is_the_source : forall r n,
 Proof. exact request_message_is_the_source. Qed.
 Print Assumptions C08_response_message_is_the_source.
 Print Assumptions C08_request_message_is_the_source.
+
+(* the start lines and chunk headers the round trips speak about - response_line_string, request_line_string,
+   chunk_header_string, last_chunk_string - are what the translated to_string() members of response_line, request_line,
+   chunk_header and last_chunk return (Gen_Parse.v, terms of M_Str.v), for EVERY line, size, extension and trailer string;
+   and the whole head is the translated to_string() fed to the translated message(). *)
+Theorem C08_request_line_string_is_the_source : forall r,
+  xrun (mk_xenv [tq_method r; tq_uri r] (tq_major r) (tq_minor r) 0) request_line_to_string_src = Some (request_line_string r).
+Proof. exact request_line_string_is_the_source. Qed.
+Theorem C08_response_line_string_is_the_source : forall r,
+  xrun (mk_xenv [rs_reason r] (rs_major r) (rs_minor r) (rs_status r)) response_line_to_string_src = Some (response_line_string r).
+Proof. exact response_line_string_is_the_source. Qed.
+Theorem C08_chunk_header_string_is_the_source : forall size ext,
+  xrun (mk_xenv [to_hex_string size; ext] 0 0 0) chunk_header_to_string_src = Some (chunk_header_string size ext).
+Proof. exact chunk_header_string_is_the_source. Qed.
+Theorem C08_last_chunk_string_is_the_source : forall ext trailers,
+  xrun (mk_xenv [ext; trailers] 0 0 0) last_chunk_to_string_src = Some (last_chunk_string ext trailers).
+Proof. exact last_chunk_string_is_the_source. Qed.
+Theorem C08_response_head_is_the_source : forall r n,
+  exists line, xrun (mk_xenv [rs_reason r] (rs_major r) (rs_minor r) (rs_status r)) response_line_to_string_src = Some line
+            /\ srun (mk_senv line (rs_headers r) (rs_status r) n) tx_response_message_src = Some (response_message r n).
+Proof. exact response_head_is_the_source. Qed.
+Theorem C08_request_head_is_the_source : forall r n,
+  exists line, xrun (mk_xenv [tq_method r; tq_uri r] (tq_major r) (tq_minor r) 0) request_line_to_string_src = Some line
+            /\ srun (mk_senv line (tq_headers r) 0 n) tx_request_message_src = Some (request_message r n).
+Proof. exact request_head_is_the_source. Qed.
+Example C08_to_string_examples :
+  xrun (mk_xenv [[71; 69; 84]; [47]] 49 49 0) request_line_to_string_src = Some [71; 69; 84; 32; 47; 32; 72; 84; 84; 80; 47; 49; 46; 49; 13; 10]
+  /\ xrun (mk_xenv [[79; 75]] 49 49 200) response_line_to_string_src = Some [72; 84; 84; 80; 47; 49; 46; 49; 32; 50; 48; 48; 32; 79; 75; 13; 10]
+  /\ xrun (mk_xenv [to_hex_string 26; [97]] 0 0 0) chunk_header_to_string_src = Some [49; 97; 59; 32; 97; 13; 10]
+  /\ xrun (mk_xenv [[]; [88; 58; 32; 49; 13; 10]] 0 0 0) last_chunk_to_string_src = Some [48; 13; 10; 88; 58; 32; 49; 13; 10; 13; 10].
+Proof. vm_compute. repeat split. Qed.
+Print Assumptions C08_request_line_string_is_the_source.
+Print Assumptions C08_response_line_string_is_the_source.
+Print Assumptions C08_chunk_header_string_is_the_source.
+Print Assumptions C08_last_chunk_string_is_the_source.
+Print Assumptions C08_response_head_is_the_source.
+Print Assumptions C08_request_head_is_the_source.
